@@ -207,13 +207,13 @@ M('twin-tool-reformat', 'twin', ['C20'], [],
   [(GEN, "            rr_name = None\n            if args.rational_rock or args.rock:\n                rr_name = basename\n", "            rr_name = None\n            want_rr = args.rational_rock or args.rock\n            if want_rr:\n                rr_name = basename\n")])
 
 # ---------------------------------------------------------------- packing / fit / accounting / identity (from the sub-agent seeds)
-M('writer-breaks-sector-one-early', 'fault', ['C01', 'C03', 'C04'], ['SA-SIB.packing.iso'],
+M('writer-breaks-sector-one-early', 'fault', ['C01', 'C03', 'C04', 'C09', 'C17', 'C20'], ['SA-SIB.packing.iso'],
   [(PY, "                if (curr_dirrecord_offset + len(recstr)) > self.logical_block_size:", "                if (curr_dirrecord_offset + len(recstr)) >= self.logical_block_size:")], '_write_directory_records')
-M('accounting-breaks-sector-one-early', 'fault', ['C01', 'C03', 'C04'], ['SA-SIB.packing.iso'],
+M('accounting-breaks-sector-one-early', 'fault', ['C01', 'C03', 'C04', 'C09', 'C17', 'C20'], ['SA-SIB.packing.iso'],
   [(DR, "            if (dirrecord_offset + dirrecord_len) > logical_block_size:", "            if (dirrecord_offset + dirrecord_len) >= logical_block_size:")], '_recalculate_extents_and_offsets')
-M('twin-packing-flipped-operands', 'twin', ['C01', 'C03', 'C04'], [],
+M('twin-packing-flipped-operands', 'twin', ['C01', 'C03', 'C04', 'C09', 'C17', 'C20'], [],
   [(PY, "                if (curr_dirrecord_offset + len(recstr)) > self.logical_block_size:", "                if self.logical_block_size < len(recstr) + curr_dirrecord_offset:")])
-M('twin-packing-negated-temp', 'twin', ['C01', 'C03', 'C04'], [],
+M('twin-packing-negated-temp', 'twin', ['C01', 'C03', 'C04', 'C09', 'C17', 'C20'], [],
   [(DR, "            if (dirrecord_offset + dirrecord_len) > logical_block_size:", "            end_of_record = dirrecord_offset + dirrecord_len\n            if not end_of_record <= logical_block_size:")])
 M('udf-fid-block-step-late', 'fault', ['C01', 'C04', 'C05', 'C10'], ['SA-SIB.packing.udf'],
   [(PY, "                if offset >= self.logical_block_size:\n", "                if offset > self.logical_block_size:\n")], '_udf_assign_extents')
@@ -306,9 +306,9 @@ M('twin-nm-record-as-join', 'twin', ['C05', 'C08'], [],
   [(RR, "        return b'NM' + struct.pack(self.FMT,\n                                   RRNMRecord.length(self.posix_name),\n                                   SU_ENTRY_VERSION,\n                                   self.posix_name_flags) + self.posix_name\n",
     "        head = struct.pack(self.FMT,\n                           RRNMRecord.length(self.posix_name),\n                           SU_ENTRY_VERSION,\n                           self.posix_name_flags)\n        return b''.join([b'NM', head, self.posix_name])\n")])
 
-M('coordinate-refresh-stops-early', 'fault', ['C02', 'C07', 'C17'], ['SA-COORD.refresh'],
+M('coordinate-refresh-stops-early', 'fault', ['C01', 'C02', 'C07', 'C17'], ['SA-COORD.refresh'],
   [(DR, "            dirrecord_offset += dirrecord_len\n            c.extents_to_here = num_extents\n", "            dirrecord_offset += dirrecord_len\n            if c.extents_to_here == num_extents and c.offset_to_here == dirrecord_offset:\n                last = self.children[-1]\n                return last.extents_to_here, last.offset_to_here\n            c.extents_to_here = num_extents\n")], '_recalculate_extents_and_offsets')
-M('coordinate-refresh-index-conditional', 'fault', ['C02', 'C07', 'C17'], ['SA-COORD.refresh'],
+M('coordinate-refresh-index-conditional', 'fault', ['C01', 'C02', 'C07', 'C17'], ['SA-COORD.refresh'],
   [(DR, "            c.index_in_parent = i\n", "            if c.index_in_parent < 0:\n                c.index_in_parent = i\n")], '_recalculate_extents_and_offsets')
 M('twin-coordinate-refresh-enumerate', 'twin', ['C02', 'C07', 'C17'], [],
   [(DR, "            c.offset_to_here = dirrecord_offset\n            c.index_in_parent = i\n", "            c.index_in_parent = i\n            c.offset_to_here = dirrecord_offset\n")])
@@ -346,6 +346,18 @@ M('num-udf-once-per-file-entry-sector', 'fault', ['C02', 'C04', 'C10'], ['SA-PAI
   [(PY, "                            ino.linked_records.append((next_entry, False))\n                            ino.num_udf += 1\n", "                            ino.linked_records.append((next_entry, False))\n                            if abs_file_entry_extent not in seen_dir_extents:\n                                ino.num_udf += 1\n")], '_walk_udf_directories')
 M('udf-walk-guard-remembers-other-extent', 'fault', ['C15'], ['SA-TERM'],
   [(PY, "                        seen_dir_extents.add(abs_file_entry_extent)\n                        udf_file_entries.append(next_entry)", "                        seen_dir_extents.add(abs_file_ident_extent)\n                        udf_file_entries.append(next_entry)")], '_walk_udf_directories')
+
+M('dr-date-offset-from-process-timezone', 'fault', ['C19'], ['SA-DATE.instant'],
+  [(DT, "        self.second = local.tm_sec\n        self.gmtoffset = utils.gmtoffset_from_tm(tm, local)\n", "        self.second = local.tm_sec\n        self.gmtoffset = -(time.altzone if local.tm_isdst > 0 else time.timezone) // 900\n")], 'gmtoffset')
+M('twin-dr-date-offset-via-temp', 'twin', ['C19'], [],
+  [(DT, "        self.second = local.tm_sec\n        self.gmtoffset = utils.gmtoffset_from_tm(tm, local)\n", "        self.second = local.tm_sec\n        quarter_hours = utils.gmtoffset_from_tm(tm, local)\n        self.gmtoffset = quarter_hours\n")])
+
+M('tool-collision-counter-reaches-1000', 'fault', ['C20', 'C18'], ['SA-STR.tool'],
+  [(GEN, "        while True:\n            if is_dir:\n                tmp = '%s%.03d' % (prefix, currnum)", "        while currnum <= 1000:\n            if is_dir:\n                tmp = '%s%.03d' % (prefix, currnum)"),
+   (GEN, "            currnum += 1\n            if currnum == 1000:\n                return None\n", "            currnum += 1\n        else:\n            return None\n")], 'renumbered length')
+M('twin-tool-collision-counter-bounded-loop', 'twin', ['C20', 'C18'], [],
+  [(GEN, "        while True:\n            if is_dir:\n                tmp = '%s%.03d' % (prefix, currnum)", "        while currnum < 1000:\n            if is_dir:\n                tmp = '%s%.03d' % (prefix, currnum)"),
+   (GEN, "            currnum += 1\n            if currnum == 1000:\n                return None\n", "            currnum += 1\n        else:\n            return None\n")])
 
 
 def applicable(m, sources):
